@@ -64,6 +64,10 @@ func GenImport(r *simrt.Rand, faultsOK bool) *ImportProg {
 		switch s.Form {
 		case "from", "fromas":
 			s.N = []string{"x", "x", "val", "_p", "h", "missing_name"}[r.Intn(6)]
+			if r.Chance(1, 5) {
+				// a name that is (or is not) an attribute of m but also names a module
+				s.N = append(append([]string(nil), names...), "sys", "math", "simlog")[r.Intn(len(names)+3)]
+			}
 			s.Wrap = true
 		case "star":
 			s.Wrap = missing || inModule
